@@ -19,6 +19,78 @@ let words s = List.filter (fun t -> t <> "") (String.split_on_char ' ' (trim s))
 let report line why = incr mism; Printf.printf "MISMATCH %s // %s\n" (if String.length line > 700 then String.sub line 0 700 ^ "..." else line) why
 let propfail line why = incr mism; Printf.printf "PROPFAIL %s // %s\n" (if String.length line > 700 then String.sub line 0 700 ^ "..." else line) why
 
+(* ---- classification of every successful More-Thuente / CG_DESCENT run of the library into the disjuncts of
+   C07_morethuente_success_cases / C07_cgdescent_success_cases. The tests are recomputed here with plain OCaml doubles on
+   the RECORDED data of the run (origin, last evaluation, returned step, parameters); only the locals that cannot be
+   observed from outside (More-Thuente: brackt, stmin, stmax; CG_DESCENT: [a, b], bracketed) come from the exit ghost of
+   the replaying model. A success that fits no disjunct is a PROPFAIL. ---- *)
+let hist : (string, (string, int) Hashtbl.t) Hashtbl.t = Hashtbl.create 4
+let count h k =
+  let t = (match Hashtbl.find_opt hist h with Some t -> t | None -> let t = Hashtbl.create 16 in Hashtbl.add hist h t; t) in
+  Hashtbl.replace t k (1 + (match Hashtbl.find_opt t k with Some n -> n | None -> 0))
+
+let classify_mt line (prm : params) (p0 : probe) (last : probe) (it : Float64.t) (rx : exitinfo) =
+  let c1 = tf prm.c1 and c2 = tf prm.c2 and f0 = tf p0.pf and dg0 = tf p0.pg in
+  let f = tf last.pf and g = tf last.pg and stp = tf it in
+  let gtest = c1 *. dg0 in
+  let ftest = f0 +. stp *. gtest in
+  let conv = f <= ftest && Float.abs g <= c2 *. (-. dg0) in
+  let xmax = stp >= tf stpmax && f <= ftest && g <= gtest in
+  let xmin = stp <= tf stpmin && (f > ftest || g >= gtest) in
+  let (ghost, round, coll) =
+    (match rx with
+     | XMT m ->
+       let stmin = tf m.m_stmin and stmax = tf m.m_stmax in
+       (true, m.m_brackt && (stp <= stmin || stp >= stmax), m.m_brackt && stmax -. stmin <= tf eps0 *. stmax)
+     | _ -> (false, false, false)) in
+  (* the exit taken = the first true test in source order *)
+  let taken =
+    if round then (if coll then "rounding+collapsed" else "rounding") else if coll then "collapsed-only"
+    else if xmax then "stpmax" else if xmin then "stpmin" else if conv then "converged" else "NONE" in
+  count "mt_success_cases" taken;
+  if taken = "NONE" then
+    propfail line (Printf.sprintf "More-Thuente success fits no disjunct of C07_morethuente_success_cases: f=%h ftest=%h |g|=%h c2*(-dg0)=%h stp=%h%s"
+                     f ftest (Float.abs g) (c2 *. (-. dg0)) stp (if ghost then "" else " (the model reports no success: no bracket ghost)"))
+  else begin
+    if taken <> "converged" then count "mt_success_flags" (if conv then "early-exit,convergence-test-also-true" else "early-exit,convergence-test-false");
+    let sw = Float.abs g <= c2 *. Float.abs dg0 and arm = f <= f0 +. stp *. c1 *. dg0 in
+    if not sw then count "mt_success_flags" "without-strong-wolfe";
+    if not arm then count "mt_success_flags" "without-state.cpp-armijo";
+    if conv && not arm then count "mt_success_flags" "converged-but-state.cpp-armijo-false(association)";
+    if f > f0 then count "mt_success_flags" "f-above-f0";
+    if taken = "converged" && not sw then propfail line "More-Thuente: convergence test true but has_strong_wolfe false (corollary C07_morethuente_strong_wolfe_unless_early_exit)"
+  end
+
+let classify_cg line (prm : params) (p0 : probe) (last : probe) (it : Float64.t) (rx : exitinfo) =
+  let c1 = tf prm.c1 and c2 = tf prm.c2 and f0 = tf p0.pf and dg0 = tf p0.pg in
+  let f = tf last.pf and g = tf last.pg and t = tf it in
+  let epsk = tf prm.cg_epsilon *. Float.abs f0 in
+  let arm = f <= f0 +. t *. c1 *. dg0 and wol = g >= c2 *. dg0 in
+  let aarm = f <= f0 +. epsk and awol = (2.0 *. c1 -. 1.0) *. dg0 >= g && g >= c2 *. dg0 in
+  if not last.pv then propfail line "CG_DESCENT success on an invalid state";
+  let (ghost, inrange, f_af, f_bg) =
+    (match rx with
+     | XCG (iv, br) ->
+       (true, not (t < tf iv.i_a.st_t || t > tf iv.i_b.st_t), br && tf iv.i_a.st_f > f0 +. epsk, br && tf iv.i_b.st_g < 0.0)
+     | _ -> (false, true, false, false)) in
+  (* done's own order: bracketing failed, then (inside [a.t, b.t]) Wolfe, then approximate Wolfe *)
+  let taken =
+    if f_af then "bracketing-failed(a.f>f0+epsk)" else if f_bg then "bracketing-failed(b.g<0)"
+    else if inrange && arm && wol then "wolfe" else if inrange && aarm && awol then "approx-wolfe-only" else "NONE" in
+  count "cg_success_cases" taken;
+  if taken = "NONE" then
+    propfail line (Printf.sprintf "CG_DESCENT success fits no disjunct of C07_cgdescent_success_cases: armijo=%b wolfe=%b approx_armijo=%b approx_wolfe=%b inside=%b%s"
+                     arm wol aarm awol inrange (if ghost then "" else " (the model reports no success: no interval ghost)"))
+  else begin
+    if (f_af || f_bg) then count "cg_success_flags" (if (arm && wol) || (aarm && awol) then "bracketing-failed,conditions-hold-anyway" else "bracketing-failed,neither-wolfe-nor-approx-wolfe");
+    if (f_af || f_bg) && not ((arm && wol) || (aarm && awol)) then begin
+      let mi = int_of_z prm.maxit in
+      count "cg_success_flags" (if mi < 10 then "bracketing-failed,no-conditions,max_iterations<10" else if mi < 100 then "bracketing-failed,no-conditions,max_iterations<100" else "bracketing-failed,no-conditions,max_iterations>=100")
+    end;
+    if taken = "wolfe" && aarm && awol then count "cg_success_flags" "wolfe,approx-wolfe-also-true";
+    if f > f0 then count "cg_success_flags" "f-above-f0"
+  end
+
 let do_const line rest =
   match words rest with
   | [a; b; c; d] ->
@@ -108,6 +180,8 @@ let do_ls line rest =
             | 0 -> if not a then propfail line "backtrack success without has_armijo on the last probe"
             | 1 -> if not (a && w) then propfail line "lemarechal success without has_armijo && has_wolfe on the last probe"
             | 2 -> if not (a && sw) then propfail line "fletcher success without has_armijo && has_strong_wolfe on the last probe"
+            | 3 -> classify_mt line prm p0 last it r.rx
+            | 4 -> classify_cg line prm p0 last it r.rx
             | _ -> ())
          end
        end
@@ -135,4 +209,7 @@ let () =
           with Failure m | Invalid_argument m -> report line ("driver cannot parse: " ^ m))
      done
    with End_of_file -> ());
+  Hashtbl.iter (fun h t ->
+      let kv = List.sort compare (Hashtbl.fold (fun k n acc -> (k, n) :: acc) t []) in
+      Printf.printf "HIST %s %s\n" h (String.concat " " (List.map (fun (k, n) -> Printf.sprintf "%s=%d" k n) kv))) hist;
   Printf.printf "MODEL-DONE checked=%d mismatches=%d\n" !total !mism
